@@ -72,6 +72,11 @@ def spaces(tier):
             out.append(cs.db_space(n, cs.COMBOS[n % 2], 2, cli=True))
     for combo in cs.COMBOS[2:4]:
         out.append(cs.db_space(4, combo, 0, base_level=-171.6))
+    for combo in cs.INEXACT:
+        out.append(cs.db_space(4, combo, 1))
+    out.append(cs.db_space(2, cs.EXTREME[0], 0, cli=True))
+    if fn_ok:
+        out.append(cs.fn_space(6, stretch=60))
     for combo in cs.EXTREME:
         out.append(cs.db_space(3, combo, 1))
         if tier == 'thorough':
